@@ -297,8 +297,47 @@ def run(ctx):
     for k in sorted(set(table) - used):
         ctx.ob("R8.3", "stale:" + k, False, "table row no longer matches", TABLE)
     ctx.floor("gated compile entry points", len(gated_entries), 4)
+    _own_function_only(ctx, F)
     ctx.floor("C08 obligations", len(ctx.obligations), 18)
     _controls(ctx, F)
+
+
+def _own_function_only(ctx, F):
+    """R8.6.  The lowering diagnostics of one lowered function (a semantic function or a generated loop / closure body) are
+    computed by a query that takes that function's id.  The back end decides per lowered function too (a loop body is its own,
+    self-recursive function: it gets its own withdraw_gas, its own panic branch).  So every analysis the query consults - the
+    lowering, the borrow check, the cycle test that gates the out-of-gas drop check, the inline diagnostics - must be asked
+    about the query's own function: an argument of the id type of the parameter has to *be* the parameter.  Asking about a
+    derived function (the enclosing semantic function, say) silently skips the checks of every generated body (seed C08-5).
+    Ids of other types derived from it (the base semantic function, used for locations) are not constrained."""
+    qs = [f for p, f in F.fns.items() if p.startswith("<cairo_lang_lowering::db::") and "diagnostics" in p and
+          p.endswith("::execute::inner_") and f.argc >= 2]
+    n = 0
+    for f in qs:
+        idl = [i for i in range(1, f.argc + 1) if f.local_ty(i).startswith("cairo_lang_lowering::ids::FunctionWithBodyId")]
+        if len(idl) != 1:
+            continue
+        me = idl[0]
+        ty = f.local_ty(me).split("<")[0]
+        ctx.analysed(f)
+        name = f.path.split("::_::")[-1].split("_Configuration_")[0]
+        for c in f.calls():
+            for k, a in enumerate(c.args):
+                l = op_local(a)
+                if l is None:
+                    continue
+                t = f.local_ty(l).lstrip("&").replace("mut ", "")
+                if not t.startswith(ty):
+                    continue
+                n += 1
+                ok = f.resolve_copy(l) == me
+                ctx.ob("R8.6", "%s:%s#%d" % (name, c.name(), k), ok,
+                       "`%s` is asked about the query's own function" % c.name() if ok else
+                       "`%s` is asked about another function than the one whose diagnostics are computed (the argument does not "
+                       "derive from the parameter by copies): the checks of generated loop / closure bodies are decided by the "
+                       "properties of a different function" % c.name(), c.where())
+    ctx.floor("per-function diagnostics queries (lowering)", len([1 for f in qs]), 1)
+    ctx.floor("function-id arguments checked (R8.6)", n, 4)
 
 
 def _reports_kind(fn, variant):
